@@ -63,6 +63,7 @@ Problems(ev) == IF ev.e = "equals" THEN EqProblems(ev) ELSE IF ev.e = "clone" TH
 Next == /\ l <= Len(TraceLog) /\ l' = l + 1
         /\ LET ev == TraceLog[l] IN
            IF ev.e = "Reset" THEN TRUE
+           ELSE IF ev.e \notin {"equals", "clone"} THEN Verdict("bad", l, ev.sc, <<ev.e>>)      \* Crash / Hang events of the executor
            ELSE IF Problems(ev) = {} THEN TRUE
            ELSE IF \E d \in KnownDeviations : Dev(d, ev) THEN Verdict("known", l, ev.sc, CHOOSE d \in KnownDeviations : Dev(d, ev))
            ELSE Verdict("bad", l, ev.sc, <<Problems(ev), IF ev.e = "equals" THEN ev.mut ELSE <<ev.t, ev.mut, ev.side>>, ev.fv>>)
